@@ -266,6 +266,13 @@ pub fn seg_random(out: &mut Out, rng: &mut Rng, n_hist: usize, len: usize) {
         let mut id = 0i64;
         let span = hi - lo;
         let pick = |rng: &mut Rng| -> (i64, i64) {
+            // whole-domain and near-whole ranges are stored at the top places of the heap
+            match rng.below(12) {
+                0 => return (lo, hi),
+                1 => return (lo, hi - rng.below((span / 16).max(1) as u64) as i64),
+                2 => return (lo + rng.below((span / 16).max(1) as u64) as i64, hi),
+                _ => {}
+            }
             let a = lo + rng.below(span as u64 + 1) as i64;
             let w = match rng.below(4) { 0 => 0, 1 => rng.below(4) as i64, 2 => rng.below((span / 8).max(1) as u64) as i64, _ => rng.below(span as u64 + 1) as i64 };
             (a, (a + w).min(hi))
